@@ -869,3 +869,102 @@ N('c11-range-one-arg', 'C11', TIMEPAT,
   "            for minute in range(0, 60):", "            for minute in range(60):")
 N('c11-const-via-len', 'C11', TIMEPAT,
   "    HOURS_24 = set(range(0, 24))", "    HOURS_24 = set(range(24))")
+
+# ------------------------------------------------------------------ C12
+B('c12-matrix-check-dropped', 'C12', 'R12.a', MACHINE,
+  "        if light is not None and self._matrix_check(light):", "        if light is not None:")
+B('c12-zone-check-dropped', 'C12', 'R12.a', MACHINE,
+  "        if light is not None and self._zone_check(light):", "        if light is not None:")
+B('c12-matrix-helper-wrong-type', 'C12', 'R12.a', MACHINE,
+  """    def _matrix_check(self, light) -> bool:
+        if not isinstance(light, MatrixLight):""",
+  """    def _matrix_check(self, light) -> bool:
+        if not isinstance(light, (MatrixLight, MultizoneLight)):""")
+B('c12-snapshot-multizone-unguarded', 'C12', 'R12.a', SNAPSHOT,
+  """                else:
+                    self.start_light(light)
+                    self.light(light)""",
+  """                else:
+                    self.start_light(light)
+                    self.multizone(light)
+                    self.light(light)""")
+B('c12-max-tries-5', 'C12', 'R12.b', LANLIGHT, "_MAX_TRIES = 3", "_MAX_TRIES = 5")
+B('c12-set-color-no-retry', 'C12', 'R12.b', LANLIGHT,
+  """    @tries(_MAX_TRIES, WorkflowException)
+    def set_color(self, color, duration):""",
+  """    def set_color(self, color, duration):""")
+B('c12-retry-counts-every-pass', 'C12', 'R12.b', RETRY,
+  """                try:
+                    return fn(*args, **kwargs)
+                except ex_type as ex:
+                    logging.warning(ex)
+                    tries_remaining -= 1""",
+  """                try:
+                    return fn(*args, **kwargs)
+                except ex_type as ex:
+                    logging.warning(ex)""")
+B('c12-retry-silent', 'C12', 'R12.b', RETRY,
+  "            logging.warning('Giving up after {} tries.'.format(num_tries))\n", "")
+B('c12-nested-retry', 'C12', 'R12.b', LANLIGHT,
+  """        result = self._impl.req_with_resp(GetDeviceChain, StateDeviceChain)""",
+  """        self.get_power()
+        result = self._impl.req_with_resp(GetDeviceChain, StateDeviceChain)""")
+B('c12-len-of-none', 'C12', 'R12.c', LANLIGHT,
+  "len(self.get_zone_colors() or [])", "len(self.get_zone_colors())")
+B('c12-snapshot-enumerate-none', 'C12', 'R12.c', SNAPSHOT,
+  "enumerate(light.get_zone_colors() or [])", "enumerate(light.get_zone_colors())")
+B('c12-snapshot-matrix-none', 'C12', 'R12.c', SNAPSHOT,
+  """    def matrix(self, light):
+        light_matrix = light.get_matrix()
+        if light_matrix is None:
+            return
+        mat = light_matrix.matrix
+        for row in range(0, light_matrix.height):
+            for column""",
+  """    def matrix(self, light):
+        light_matrix = light.get_matrix()
+        mat = light_matrix.matrix
+        for row in range(0, light_matrix.height):
+            for column""")
+B('c12-power-light-unchecked', 'C12', 'R12.d', MACHINE,
+  """        light = light_set.get_light(self._reg.name)
+        if light is None:
+            Machine._report_missing(self._reg.name)
+        else:
+            duration = self._as_raw_time(self._reg.duration)
+            light.set_power(self._reg.get_power(), duration)""",
+  """        light = light_set.get_light(self._reg.name)
+        duration = self._as_raw_time(self._reg.duration)
+        light.set_power(self._reg.get_power(), duration)""")
+B('c12-dnextm-unchecked', 'C12', 'R12.d', VMDISC,
+  """        if name_list is None:
+            # The group or location disappeared during the iteration.
+            self._reg.result = Operand.NULL
+        elif not self._reg.disc_forward:""",
+  """        if not self._reg.disc_forward:""")
+B('c12-group-unchecked', 'C12', 'R12.d', MACHINE,
+  """        light_names = light_set.get_group_lights(self._reg.name)
+        if light_names is None:
+            logging.warning("Unknown group: {}".format(self._reg.name))
+        else:
+            self._color_multiple(
+                [light_set.get_light(name) for name in light_names])""",
+  """        light_names = light_set.get_group_lights(self._reg.name)
+        self._color_multiple(
+            [light_set.get_light(name) for name in light_names])""")
+B('c12-discover-no-handler', 'C12', 'R12.e', LIGHTSET,
+  "        except i_controller.LightException as ex:\n            self._num_failed_discovers += 1",
+  "        except KeyError as ex:\n            self._num_failed_discovers += 1")
+B('c12-get-lights-no-conversion', 'C12', 'R12.e', LANAPI,
+  "        except lifxlan.errors.WorkflowException as ex:", "        except KeyError as ex:")
+N('c12-isinstance-inline', 'C12', MACHINE,
+  "        if light is not None and self._matrix_check(light):",
+  "        if light is not None and isinstance(light, MatrixLight):")
+N('c12-max-tries-2', 'C12', LANLIGHT, "_MAX_TRIES = 3", "_MAX_TRIES = 2")
+N('c12-none-check-truthy', 'C12', MACHINE,
+  """        light = self._get_named_light()
+        if light is not None:
+            light.set_color(""",
+  """        light = self._get_named_light()
+        if light:
+            light.set_color(""")
